@@ -38,7 +38,8 @@ M = [
     ("c04-drop-control-noise-term", PY, "        next_covariance = next_state_covariance + next_control_covariance\n", "        next_covariance = next_state_covariance\n", ["C04"]),
     ("c04-GtPG", PY, "            G_t, np.matmul(covariance.data, G_t.transpose())\n", "            G_t.transpose(), np.matmul(covariance.data, G_t)\n", ["C04"]),
     ("c04-noise-on-mirrored-control", PY, "                process_noise_matrix[iIdx, jIdx] = value\n                process_noise_matrix[jIdx, iIdx] = value", "                process_noise_matrix[-1 - iIdx, -1 - jIdx] = value\n                process_noise_matrix[-1 - jIdx, -1 - iIdx] = value", ["C04"]),
-    ("c05-plus-KHP", PY, "        next_covariance = covariance.data - np.matmul(\n            K_t, np.matmul(H_t, covariance.data)", "        next_covariance = covariance.data + np.matmul(\n            K_t, np.matmul(H_t, covariance.data)", ["C05"]),
+    ("c05-I-plus-KH", PY, "        I_KH = np.eye(self.state_size) - np.matmul(K_t, H_t)", "        I_KH = np.eye(self.state_size) + np.matmul(K_t, H_t)", ["C05"]),
+    ("c05-joseph-drop-KQKt", PY, "        ) + np.matmul(K_t, np.matmul(Q_t.data, K_t.transpose()))", "        )", ["C05", "C07"]),
     ("c05-gain-without-Sinv", PY, "            covariance.data, np.matmul(H_t.transpose(), S_inv)\n", "            covariance.data, np.matmul(H_t.transpose(), np.eye(len(S_inv)))\n", ["C05"]),
     ("c05-innovation-sign", PY, "            sensor_reading.data - expected_reading.data\n", "            expected_reading.data - sensor_reading.data\n", ["C05"]),
     ("c06-py-ge", PY, "        return normalized_innovation > expected_innovation", "        return normalized_innovation >= expected_innovation", ["C06"]),
@@ -50,7 +51,8 @@ M = [
     ("c08-py-temporaries-off-by-one", PY, "                        self._arglist + temporaries[:i],", "                        self._arglist + temporaries[: max(i - 1, 0)],", ["C08", "C01"]),
     ("c08-cpp-prefix-reversed", CPP, "        for target, expr in prefix:\n            assert isinstance(target, Symbol)", "        for target, expr in reversed(prefix):\n            assert isinstance(target, Symbol)", ["C08", "C02"]),
     ("c09-absolute-gate-restored", PY, "    if np.any(covariance_eigenvalues < negative_tol * scale):", "    if np.any(covariance_eigenvalues < -1e-15):", ["C09", "C04"]),
-    ("c09-update-P-minus-KH", PY, "            K_t, np.matmul(H_t, covariance.data)\n        )\n        # K H P", "            K_t, np.matmul(H_t, np.eye(self.state_size))\n        )\n        # K H P", ["C09", "C05"]),
+    ("c09-symmetry-gate-absolute", PY, "    assert np.allclose(covariance, covariance.T, rtol=1e-5, atol=1e-8 * scale)", "    assert np.allclose(covariance, covariance.T)", ["C09"]),
+    ("c09-standard-form-update", PY, "        next_covariance = np.matmul(\n            I_KH, np.matmul(covariance.data, I_KH.transpose())\n        ) + np.matmul(K_t, np.matmul(Q_t.data, K_t.transpose()))", "        next_covariance = covariance.data - np.matmul(K_t, np.matmul(H_t, covariance.data))", ["C09"]),
     ("c10-py-remainder-threshold-1e-3", RT, "        if abs(output_time - iter_time) >= 1e-9:", "        if abs(output_time - iter_time) >= 1e-3:", ["C10"]),
     ("c10-py-one-iteration-fewer", RT, "        for _ in range(expected_iterations):", "        for _ in range(max(expected_iterations - 1, 0)):", ["C10", "C11"]),
     ("c10-cpp-direction-flipped-back", MF, "      if (state.currentTime > outputTime) {\n        return -Impl::Tag::max_dt_sec;\n      }\n      return Impl::Tag::max_dt_sec;\n    })(_state);\n\n    typename Impl::Tag::StateAndVarianceT state = _state.state;\n\n    size_t expected_iterations = static_cast<size_t>(\n        std::abs(std::floor((outputTime - _state.currentTime) / max_dt)));\n\n    for (size_t count = 0; count < expected_iterations; ++count) {\n      if constexpr (!std::is_same_v<typename Impl::Tag::CalibrationT,\n                                    std::false_type>) {\n        state = _impl.process_model(max_dt, state, _calibration, control);",
